@@ -17,7 +17,7 @@ CLAIMS = {
  'C04': dict(text="Theorems about the loop of data_connection::send for every chunking of the source: bytes written = concatenation of the chunks (binary) / to_crlf (ASCII); the program order 'close the data connection, then await the completion reply' is fixed in finish_transfer. PARTIAL: the kernel side of write/close is assumed; the peer sends the completion reply only after it saw end-of-file, so a client that waited first would block.", design='4/C04', note=PROTO_NOTE, technique='Coq proof (induction over blocks; composition with the ASCII theorem) + differential correspondence'),
  'C07': dict(text='Theorem: refusal at EPSV/PASV for every verb, path, sink/source/callback and script tail returns exactly that reply, emits no sink/source/callback event, opens no data socket and leaves the session in step; no data socket or listener survives ANY call (all paths). PARTIAL: refusal at the transfer command and in the active modes is decided by the correspondence (every negative code x step x operation x method).', design='4/C07', note=PROTO_NOTE, technique='Coq proof (symbolic run of the refusal path, scope bracket) + differential correspondence'),
  'C09': dict(text='Theorems for every API call, world and script: every command line written is free of CR/LF (by a generic decomposition of everything a program adds to the trace, proved by induction over programs); a caller text with CR or LF makes the call throw before any byte or event.', design='4/C09', note=PROTO_NOTE, technique='Coq proof (induction over the free monad of operations) + differential correspondence on the raw bytes the peer receives'),
- 'C10': dict(text='Theorems: simple calls write exactly their one line and return its reply; TYPE changes the reported type exactly on a positive reply; rename sends RNTO exactly after 350. PARTIAL: the login and transfer sequences are fixed by the programs of Client.v; their agreement with the reference table for every reply class at every step is decided by the correspondence.', design='4/C10', note=PROTO_NOTE, technique='Coq proof (process_command step lemma) + differential correspondence against the reference command table'),
+ 'C10': dict(text='Theorems: simple calls write exactly their one line and return its reply; TYPE changes the reported type exactly on a positive reply; rename sends RNTO exactly after 350; login exchanges exactly the lines of the reference table (USER; PASS exactly after 331; stop at the first negative reply; PBSZ 0 / PROT P with TLS; TYPE for the configured type) for every reply at every step, returns exactly the replies received and stays in step. PARTIAL: the transfer verbs are fixed by the programs of Client.v; their agreement with the reference table is decided by the correspondence.', design='4/C10', note=PROTO_NOTE, technique='Coq proof (process_command step lemma) + differential correspondence against the reference command table'),
  'C12': dict(text='Theorems for every payload, segmentation/chunking and poll-answer sequence, both directions and both types: cancelled at the first poll => nothing else happens; otherwise begin once, end once at the end, notify sums to the bytes moved, no block after the first true poll; the cancel path sends ABOR, reads a second reply after 426 and closes the data socket without graceful shutdown.', design='4/C12', note=PROTO_NOTE, technique='Coq proof (induction over blocks with the callback as an oracle) + differential correspondence with recording callbacks'),
  'C14': dict(text='Theorem for every program, world and script: what a call adds to the trace decomposes into actions such that every observer sees exactly the transcript (each event as many times as it is registered, none when removed), requests before the line is written, replies after they are read, in wire order; add appends, remove drops all registrations.', design='4/C14', note=PROTO_NOTE, technique='Coq proof (induction over the free monad of operations) + differential correspondence with recording observers'),
  'C17': dict(text='Theorem for every history, configuration and script: after every call (returned, thrown or blocked) no data socket and no listener is held, the control socket exactly while connected. The tie to descriptors is the correspondence (/proc/self/fd after every call and after destruction).', design='4/C17', note=PROTO_NOTE, technique='Coq proof (scope bracket + no-data-primitive induction) + descriptor accounting in the differential runs'),
